@@ -699,6 +699,9 @@ void ColourPair::addPairToConnectionAndWrite(Particle *first_p, Particle *second
     throw gError("ColourPair::addPairToConnectionAndWrite", "Calling this function is not allowed for ColourPairs with two different species like this one because writing into a new file currently just works for two identical species. Species1 = '" + firstSpecies() + "', Species2 = '" + secondSpecies() + "'.");
 
   point_t boxSize = M_PHASE->boundary()->boundingBox().size();
+  // the minimum-image wrap applies in periodic directions only
+  const bool_point_t& periodicFront = M_PHASE->boundary()->periodicityFront();
+  const bool_point_t& periodicBack = M_PHASE->boundary()->periodicityBack();
 //   MSG_DEBUG("ColourPair::addPairToConnection", "using box size " << boxSize);
   double size;
   dist_t d;
@@ -740,8 +743,10 @@ void ColourPair::addPairToConnectionAndWrite(Particle *first_p, Particle *second
     //MSG_DEBUG("ColourPair::addPairToConnectionAndWrite", "cartesian before" << d.cartesian[_i]);
     // periodic BCs
     size = boxSize[_i];
-    if(d.cartesian[_i] > 0.5*size) d.cartesian[_i] -= size; 
-    if(d.cartesian[_i] < -0.5*size) d.cartesian[_i] += size; 
+    if(periodicFront[_i] || periodicBack[_i]) {
+      if(d.cartesian[_i] > 0.5*size) d.cartesian[_i] -= size; 
+      if(d.cartesian[_i] < -0.5*size) d.cartesian[_i] += size; 
+    }
     d.abs_square += d.cartesian[_i]*d.cartesian[_i];
   }
   d.abs = sqrt(d.abs_square);
@@ -766,6 +771,9 @@ void ColourPair::addPairToConnection(Particle *arg_first_p, Particle *arg_second
     second_p = arg_first_p;
   }
   point_t boxSize = M_PHASE->boundary()->boundingBox().size();
+  // the minimum-image wrap applies in periodic directions only
+  const bool_point_t& periodicFront = M_PHASE->boundary()->periodicityFront();
+  const bool_point_t& periodicBack = M_PHASE->boundary()->periodicityBack();
 //   MSG_DEBUG("ColourPair::addPairToConnection", "using box size " << boxSize);
   double size;
   dist_t d;
@@ -777,8 +785,10 @@ void ColourPair::addPairToConnection(Particle *arg_first_p, Particle *arg_second
     //MSG_DEBUG("ColourPair::addPairToConnection", "cartesian before" << d.cartesian[_i]);
     // periodic BCs
     size = boxSize[_i];
-    if(d.cartesian[_i] > 0.5*size) d.cartesian[_i] -= size; 
-    if(d.cartesian[_i] < -0.5*size) d.cartesian[_i] += size; 
+    if(periodicFront[_i] || periodicBack[_i]) {
+      if(d.cartesian[_i] > 0.5*size) d.cartesian[_i] -= size; 
+      if(d.cartesian[_i] < -0.5*size) d.cartesian[_i] += size; 
+    }
     d.abs_square += d.cartesian[_i]*d.cartesian[_i];
   }
   d.abs = sqrt(d.abs_square);
@@ -790,6 +800,9 @@ void ColourPair::addPairToConnection(Particle *arg_first_p, Particle *arg_second
 
 void ColourPair::updateConnectedDistances() {
   point_t boxSize = M_PHASE->boundary()->boundingBox().size();
+  // the minimum-image wrap applies in periodic directions only
+  const bool_point_t& periodicFront = M_PHASE->boundary()->periodicityFront();
+  const bool_point_t& periodicBack = M_PHASE->boundary()->periodicityBack();
   //MSG_DEBUG("ColourPair::updateConnectedDistances", "using box size " << boxSize);
   double size;
   
@@ -803,8 +816,10 @@ void ColourPair::updateConnectedDistances() {
       for(size_t dir = 0; dir < SPACE_DIMS; ++dir) {
 	size = boxSize[dir];
 	// Concerning periodic BCs, currently (2009/04/13) this is the only place where, in principle, we have to ask ourselves whether to take > or >= (< or <=). But also currently (2009/04/13) this question is irrelevant since any direction must have at least 2 cells.
-	if(cartesian[dir] > 0.5*size) cartesian[dir] -= size; 
-	if(cartesian[dir] < -0.5*size) cartesian[dir] += size; 
+	if(periodicFront[dir] || periodicBack[dir]) {
+	  if(cartesian[dir] > 0.5*size) cartesian[dir] -= size; 
+	  if(cartesian[dir] < -0.5*size) cartesian[dir] += size; 
+	}
       }
       // absolute values
       i->m_distance.calcAbs();
